@@ -176,6 +176,36 @@ set_hdr_size_error(kdump_ctx_t *ctx, const char *type, size_t entsz)
 			 type, entsz);
 }
 
+/** Check that a header table lies within the dump file.
+ * @param ctx    Dump file object.
+ * @param type   "program" or "section" (for the error message).
+ * @param off    File offset of the table.
+ * @param num    Number of entries (non-zero).
+ * @param entsz  Size of one entry.
+ * @param hdrsz  Size of the header structure (at most @p entsz).
+ * @returns      Error status.
+ *
+ * Entries beyond end of file would read as zeroes, one by one.
+ * Only the header structure of the last entry must be in the file.
+ */
+static kdump_status
+check_hdr_table(kdump_ctx_t *ctx, const char *type, off_t off,
+		uint64_t num, size_t entsz, size_t hdrsz)
+{
+	kdump_status ret;
+
+	ret = num - 1 > (UINT64_MAX - hdrsz) / entsz
+		? KDUMP_ERR_CORRUPT
+		: check_file_extent(ctx, 0, off, (num - 1) * entsz + hdrsz,
+				    "Header table");
+	if (ret != KDUMP_OK)
+		return set_error(ctx, ret,
+				 "Invalid ELF %s header table (%" PRIu64
+				 " entries at %llu)",
+				 type, num, (unsigned long long) off);
+	return KDUMP_OK;
+}
+
 static const char *
 mach2arch(unsigned mach, int elfclass)
 {
@@ -1264,6 +1294,12 @@ init_elf32(kdump_ctx_t *ctx, Elf32_Ehdr *ehdr)
 	entsz = dump16toh(ctx, ehdr->e_phentsize);
 	if (phnum && entsz < sizeof(Elf32_Phdr))
 		return set_hdr_size_error(ctx, "program", entsz);
+	if (phnum) {
+		ret = check_hdr_table(ctx, "program", offset, phnum, entsz,
+				      sizeof(Elf32_Phdr));
+		if (ret != KDUMP_OK)
+			return ret;
+	}
 	for (i = 0; i < phnum; ++i) {
 		Elf32_Phdr prog;
 		struct load_segment *pls;
@@ -1292,6 +1328,12 @@ init_elf32(kdump_ctx_t *ctx, Elf32_Ehdr *ehdr)
 	entsz = dump16toh(ctx, ehdr->e_shentsize);
 	if (shnum && entsz < sizeof(Elf32_Shdr))
 		return set_hdr_size_error(ctx, "section", entsz);
+	if (shnum) {
+		ret = check_hdr_table(ctx, "section", offset, shnum, entsz,
+				      sizeof(Elf32_Shdr));
+		if (ret != KDUMP_OK)
+			return ret;
+	}
 	for (i = 0; i < shnum; ++i) {
 		Elf32_Shdr sect;
 
@@ -1363,6 +1405,12 @@ init_elf64(kdump_ctx_t *ctx, Elf64_Ehdr *ehdr)
 	entsz = dump16toh(ctx, ehdr->e_phentsize);
 	if (phnum && entsz < sizeof(Elf64_Phdr))
 		return set_hdr_size_error(ctx, "program", entsz);
+	if (phnum) {
+		ret = check_hdr_table(ctx, "program", offset, phnum, entsz,
+				      sizeof(Elf64_Phdr));
+		if (ret != KDUMP_OK)
+			return ret;
+	}
 	for (i = 0; i < phnum; ++i) {
 		Elf64_Phdr prog;
 		struct load_segment *pls;
@@ -1391,6 +1439,12 @@ init_elf64(kdump_ctx_t *ctx, Elf64_Ehdr *ehdr)
 	entsz = dump16toh(ctx, ehdr->e_shentsize);
 	if (shnum && entsz < sizeof(Elf64_Shdr))
 		return set_hdr_size_error(ctx, "section", entsz);
+	if (shnum) {
+		ret = check_hdr_table(ctx, "section", offset, shnum, entsz,
+				      sizeof(Elf64_Shdr));
+		if (ret != KDUMP_OK)
+			return ret;
+	}
 	for (i = 0; i < shnum; ++i) {
 		Elf64_Shdr sect;
 
